@@ -384,9 +384,19 @@ impl Engine for DirectiveEngine {
             (dirs, nthreads, steps)
         };
         // race variant (must-hold only): two threads, each with its own slots, under seeded schedules
-        if g.mode == "must" && dirs.iter().any(is_span_scoped) && rng.chance(1, 4) {
+        if g.mode == "must" && dirs.iter().any(is_span_scoped) && rng.chance(1, 3) {
             let mut st = vec![];
             let mut stack: Vec<Vec<u64>> = vec![vec![]; 2];
+            // both threads begin by hitting the same span callsite for the first time, enter it and emit inside
+            if rng.chance(2, 3) {
+                let f0 = rng.below(fsites::N as u64);
+                for t in 0..2u64 {
+                    st.push(json!({"t": t, "op": "fspan", "slot": t, "fsite": f0, "x": rng.below(3) as i64, "flag": rng.chance(1, 2)}));
+                    st.push(json!({"t": t, "op": "enter", "slot": t}));
+                    stack[t as usize].push(t);
+                    st.push(json!({"t": t, "op": "event", "site": rng.below(20)}));
+                }
+            }
             for _ in 0..rng.range(6, 16) {
                 let t = rng.below(2);
                 let own: Vec<u64> = (0..NSLOTS as u64).filter(|s| s % 2 == t).collect();
